@@ -3,8 +3,9 @@
 
   Model: Aqv.Model.ChainDb (store, events, `recover` = NewBlockChain → loadLastState → repair/Reset, the discipline
   `LocalOK`, the statement `RecoverOK`, trie `commit`, `Database.Commit` with write failures) and
-  Aqv.Model.ChainWriter (`WriteBlockWithState` / `reorg` / `insert` / `Stop` / `SetHead` as event emitters, as written and
-  with the proposed fix).  Helpers: Aqv.Lemmas.ChainDb, ChainWriter, ChainWriterTrace.
+  Aqv.Model.ChainWriter (`WriteBlockWithState` / `reorg` / `insert` / `Stop` / `SetHead` as event emitters; `Variant.head` is
+  the code as written, `Variant.preFix` the tree before fix commits 141a732 / deec78d — theorems named `prefix_*` document
+  the crash windows that tree had).  Helpers: Aqv.Lemmas.ChainDb, ChainWriter, ChainWriterTrace.
 
   A crash leaves exactly a PREFIX of the event sequence on disk (LevelDB batch atomicity and write ordering are the
   property's own premise).  "For every crash point" is therefore "for every prefix of the write log".
@@ -93,7 +94,7 @@ example : childrenFirstB [(.node 100, .node [])]
 
 /-! ## 3. `trie.Database.Commit`: lock discipline under every injected write failure -/
 
-/-- **With the proposed one-line fix** (`RUnlock` before the error return inside the preimage loop): for all pending
+/-- **`Database.Commit` as written** (with the `RUnlock` before the error return inside the preimage loop, 69e8ea6): for all pending
     preimages, all put sequences, every batch-size limit and every failing `batch.Write()` (or none), the read lock and the
     write lock are released on return. -/
 theorem commit_lock_balanced (limit : Nat) (pre : List (Hash × Nat)) (nodes : List (Hash × List Hash × Nat))
@@ -107,9 +108,9 @@ theorem commit_lock_balanced (limit : Nat) (pre : List (Hash × Nat)) (nodes : L
     · rfl
     · split <;> rfl
 
-/-- **As written**: balanced on every path on which the preimage loop does not fail a flush (in particular whenever the
-    pending preimages stay below `IdealBatchSize`, or no write fails, or a later write fails). -/
-theorem commit_lock_balanced_partial (limit : Nat) (pre : List (Hash × Nat)) (nodes : List (Hash × List Hash × Nat))
+/-- **Before 69e8ea6**: balanced only on the paths on which the preimage loop does not fail a flush (in particular whenever
+    the pending preimages stay below `IdealBatchSize`, or no write fails, or a later write fails). -/
+theorem prefix_commit_lock_balanced_partial (limit : Nat) (pre : List (Hash × Nat)) (nodes : List (Hash × List Hash × Nat))
     (failAt : Option Nat) (hpre : (preLoop limit failAt pre { acts := [.lk .rlock] }).1 = true) :
     held (lockOps (commitRun false limit pre nodes failAt).1) = (0, 0) := by
   rw [commitRun_lockOps]
@@ -118,10 +119,10 @@ theorem commit_lock_balanced_partial (limit : Nat) (pre : List (Hash × Nat)) (n
   · rfl
   · split <;> rfl
 
-/-- **As written, the full statement is false**: two preimages of 60 bytes with a 100-byte limit make the preimage loop
-    flush; when that flush fails `Commit` returns the error with the read lock still held (every later `Lock()` on the
+/-- **Before 69e8ea6 the full statement was false**: two preimages of 60 bytes with a 100-byte limit make the preimage loop
+    flush; when that flush failed `Commit` returned the error with the read lock still held (every later `Lock()` on the
     trie database — `Dereference`, `Insert`, the next `Commit` — blocks forever). -/
-theorem commit_lock_leak_witness :
+theorem prefix_commit_lock_leak_witness :
     commitRun false 100 [(1, 60), (2, 60)] [] (some 0) = ([.lk .rlock, .failedWrite], true) ∧
     held (lockOps (commitRun false 100 [(1, 60), (2, 60)] [] (some 0)).1) = (1, 0) := by decide
 
@@ -129,8 +130,8 @@ example : (preLoop 100 (some 1) [(1, 60), (2, 60)] { acts := [.lk .rlock] }).1 =
 
 /-! ## 4. The writers: every prefix of the write log is a good image -/
 
-/-- **`impl_trace_ok` for the FIXED writers** (block batch flushed before `reorg`; `insert` writes the canonical number
-    and the head markers in one batch): for every initial image satisfying the invariant, every history of block imports
+/-- **`impl_trace_ok`: the writers as written** (`Variant.head`: block batch flushed before `reorg`; `insert` writes the
+    canonical number and the head markers in one batch): for every initial image satisfying the invariant, every history of block imports
     (any blocks, any fork-choice outcomes — extensions, side blocks, reorganisations to longer, equal and shorter branches),
     `WriteBlockWithoutState`, `Stop` and reopen, under the archive and the pruning configuration, the write log satisfies
     `TraceOK`: every crash prefix is a `LocalOK` image whose head pointer names the last block made head.
@@ -139,27 +140,27 @@ example : (preLoop 100 (some 1) [(1, 60), (2, 60)] { acts := [.lk .rlock] }).1 =
     disk (§2, observed on every real log by the harness); on an archive node the block's state root is on disk after the
     flush. -/
 theorem impl_trace_ok (archive : Bool) (db : Db) (g : Hash) (hi : Inv archive db g) (steps : List Step)
-    (hok : StepsOK archive .fixed { db := db, head := g, hhdr := g } steps) :
-    TraceOK archive db g (writeLog .fixed db g steps) = true :=
-  writeLog_traceOK .fixed hi steps hok
+    (hok : StepsOK archive .head { db := db, head := g, hhdr := g } steps) :
+    TraceOK archive db g (writeLog .head db g steps) = true :=
+  writeLog_traceOK .head hi steps hok
 
-/-- composition: with the fixed writers every crash point of every valid history recovers -/
-theorem fixed_every_crash_recovers (archive : Bool) (db : Db) (g : Hash) (hi : Inv archive db g) (steps : List Step)
-    (hok : StepsOK archive .fixed { db := db, head := g, hhdr := g } steps) :
-    ∀ p, p <+: writeLog .fixed db g steps →
+/-- composition: every crash point of every valid history recovers -/
+theorem every_crash_recovers (archive : Bool) (db : Db) (g : Hash) (hi : Inv archive db g) (steps : List Step)
+    (hok : StepsOK archive .head { db := db, head := g, hhdr := g } steps) :
+    ∀ p, p <+: writeLog .head db g steps →
       RecoverOK archive (applyAll db (p.map (·.1))) (recover (applyAll db (p.map (·.1)))) ∧
       headPtr (applyAll db (p.map (·.1))) = some (ghostAt g p) :=
   trace_discipline_sound archive db g _ (impl_trace_ok archive db g hi steps hok)
 
-/-- **`impl_trace_ok` for the code AS WRITTEN, partial**: the same statement holds for every history in which no import
+/-- **The tree before 141a732 / deec78d**: the same statement held only for histories in which no import
     reorganises (each block that becomes head extends the current head; side blocks are unrestricted).  The excluded
-    set — imports that call `reorg` — is exactly where the statement fails (witnesses below). -/
-theorem impl_trace_ok_partial (archive : Bool) (db : Db) (g : Hash) (hi : Inv archive db g) (steps : List Step)
-    (hok : StepsOK archive .asWritten { db := db, head := g, hhdr := g } steps) :
-    TraceOK archive db g (writeLog .asWritten db g steps) = true :=
-  writeLog_traceOK .asWritten hi steps hok
+    set — imports that call `reorg` — was exactly where the statement failed (witnesses below). -/
+theorem prefix_impl_trace_ok_partial (archive : Bool) (db : Db) (g : Hash) (hi : Inv archive db g) (steps : List Step)
+    (hok : StepsOK archive .preFix { db := db, head := g, hhdr := g } steps) :
+    TraceOK archive db g (writeLog .preFix db g steps) = true :=
+  writeLog_traceOK .preFix hi steps hok
 
-/-! ### witnesses: the code as written breaks the discipline inside `reorg` -/
+/-! ### witnesses: the two crash windows of the tree before the fixes (inside `reorg`) -/
 
 /-- genesis image: block 0 with state root 100 -/
 def gen0 : Db :=
@@ -172,32 +173,32 @@ def step2 : Step := .importBlock ⟨2, 0, 1, 102, [2]⟩ true [[(.node 102, some
 /-- block 1 (tx 1) becomes head, then its sibling 2 (tx 2) wins the fork choice: a one-block reorganisation -/
 def siblingReorg : List Step := [step1, step2]
 
-/-- As written: the 10th write of the history is `reorg → insert`'s canonical-number put for the incoming block; after it
+/-- Before deec78d: the 10th write of the history is `reorg → insert`'s canonical-number put for the incoming block; after it
     the head pointer still names block 1 while canonical number 1 names block 2 (the index disagrees with the head's
     ancestry) … -/
-theorem aswritten_canon_before_head_witness :
-    firstBad true gen0 0 (writeLog .asWritten gen0 0 siblingReorg) 0 = some 10 ∧
-    (writeLog .asWritten gen0 0 siblingReorg)[9]? = some (.put (.canon 1) (.ref 2), 1) ∧
-    recover (applyAll gen0 (((writeLog .asWritten gen0 0 siblingReorg).take 10).map (·.1))) = .ok 1 1 ∧
-    canonHash (applyAll gen0 (((writeLog .asWritten gen0 0 siblingReorg).take 10).map (·.1))) 1 = some 2 := by decide
+theorem prefix_canon_before_head_witness :
+    firstBad true gen0 0 (writeLog .preFix gen0 0 siblingReorg) 0 = some 10 ∧
+    (writeLog .preFix gen0 0 siblingReorg)[9]? = some (.put (.canon 1) (.ref 2), 1) ∧
+    recover (applyAll gen0 (((writeLog .preFix gen0 0 siblingReorg).take 10).map (·.1))) = .ok 1 1 ∧
+    canonHash (applyAll gen0 (((writeLog .preFix gen0 0 siblingReorg).take 10).map (·.1))) 1 = some 2 := by decide
 
 /-- … and after the next write (`LastBlock := 2`, still before block 2's own batch) the head pointer names a block that is
     not on disk: `NewBlockChain` panics (loadLastState → "Head block missing" → Reset → SetHead → CurrentBlock() on an
     unset atomic.Value).  The window stays open for 5 write boundaries (LastBlock, LastHeader, LastFast, the lookup write,
     the lookup delete), until the batch with block 2's header and body is flushed. -/
-theorem aswritten_head_before_batch_witness :
-    (writeLog .asWritten gen0 0 siblingReorg)[10]? = some (.put .lastBlock (.ref 2), 2) ∧
+theorem prefix_head_before_batch_witness :
+    (writeLog .preFix gen0 0 siblingReorg)[10]? = some (.put .lastBlock (.ref 2), 2) ∧
     (∀ k, 11 ≤ k → k ≤ 15 →
-      recover (applyAll gen0 (((writeLog .asWritten gen0 0 siblingReorg).take k).map (·.1))) = .panicReset) ∧
-    recover (applyAll gen0 (((writeLog .asWritten gen0 0 siblingReorg).take 16).map (·.1))) = .ok 2 1 ∧
-    TraceOK true gen0 0 (writeLog .asWritten gen0 0 siblingReorg) = false := by
+      recover (applyAll gen0 (((writeLog .preFix gen0 0 siblingReorg).take k).map (·.1))) = .panicReset) ∧
+    recover (applyAll gen0 (((writeLog .preFix gen0 0 siblingReorg).take 16).map (·.1))) = .ok 2 1 ∧
+    TraceOK true gen0 0 (writeLog .preFix gen0 0 siblingReorg) = false := by
   refine ⟨by decide, ?_, by decide, by decide⟩
   intro k h1 h2
   have : k = 11 ∨ k = 12 ∨ k = 13 ∨ k = 14 ∨ k = 15 := by omega
   rcases this with rfl | rfl | rfl | rfl | rfl <;> decide
 
-/-- flushing the block batch first (without the atomic `insert`) removes the panic window but not the index window -/
-theorem batchFirst_only_witness :
+/-- flushing the block batch first (141a732 without deec78d) removes the panic window but not the index window -/
+theorem prefix_batchFirst_only_witness :
     (∀ k, k ≤ (writeLog ⟨true, false⟩ gen0 0 siblingReorg).length →
       (recover (applyAll gen0 (((writeLog ⟨true, false⟩ gen0 0 siblingReorg).take k).map (·.1)))).isOk = true) ∧
     firstBad true gen0 0 (writeLog ⟨true, false⟩ gen0 0 siblingReorg) 0 = some 11 := by
@@ -210,15 +211,15 @@ theorem batchFirst_only_witness :
   rcases this with rfl | rfl | rfl | rfl | rfl | rfl | rfl | rfl | rfl | rfl | rfl | rfl | rfl | rfl | rfl | rfl | rfl | rfl |
     rfl | rfl <;> decide
 
-/-- the same history under the fixed writers: every prefix is good -/
-theorem fixed_sibling_reorg_ok : TraceOK true gen0 0 (writeLog .fixed gen0 0 siblingReorg) = true := by decide
+/-- the same history under the writers as written: every prefix is good -/
+theorem head_sibling_reorg_ok : TraceOK true gen0 0 (writeLog .head gen0 0 siblingReorg) = true := by decide
 
 /-- non-vacuity of `impl_trace_ok` / `impl_trace_ok_partial`: the genesis image satisfies the invariant … -/
 example : Inv true gen0 0 := invB_sound (by decide)
 
-/-- … and the reorganising history `siblingReorg` satisfies `StepsOK` for the fixed writers (its first step alone, which
-    extends the head, satisfies it for the writers as written) -/
-example : StepsOK true .fixed { db := gen0, head := 0, hhdr := 0 } siblingReorg := by
+/-- … and the reorganising history `siblingReorg` satisfies `StepsOK` (its first step alone, which extends the head, satisfied it
+    for the pre-fix writers too) -/
+example : StepsOK true .head { db := gen0, head := 0, hhdr := 0 } siblingReorg := by
   refine ⟨⟨⟨by decide, by decide, by decide, by decide, ?_⟩, Or.inl ⟨rfl, rfl⟩⟩, ⟨⟨by decide, by decide, by decide, by decide, ?_⟩,
     Or.inl ⟨rfl, rfl⟩⟩, trivial⟩
   · intro n hn
@@ -226,11 +227,11 @@ example : StepsOK true .fixed { db := gen0, head := 0, hhdr := 0 } siblingReorg 
     rw [show (⟨1, 0, 1, 101, [1]⟩ : Blk).parent = 0 from rfl, this] at hn
     injection hn with hn; subst hn; rfl
   · intro n hn
-    have : blockNumber (step .fixed { db := gen0, head := 0, hhdr := 0 } step1).db 0 = some 0 := by decide
+    have : blockNumber (step .head { db := gen0, head := 0, hhdr := 0 } step1).db 0 = some 0 := by decide
     rw [show (⟨2, 0, 1, 102, [2]⟩ : Blk).parent = 0 from rfl, this] at hn
     injection hn with hn; subst hn; rfl
 
-example : StepsOK true .asWritten { db := gen0, head := 0, hhdr := 0 } (siblingReorg.take 1) := by
+example : StepsOK true .preFix { db := gen0, head := 0, hhdr := 0 } (siblingReorg.take 1) := by
   refine ⟨⟨⟨by decide, by decide, by decide, by decide, ?_⟩, Or.inr (fun _ => rfl)⟩, trivial⟩
   intro n hn
   have : blockNumber gen0 0 = some 0 := by decide
@@ -243,8 +244,8 @@ example : StepsOK true .asWritten { db := gen0, head := 0, hhdr := 0 } (siblingR
     image on which `NewBlockChain` panics.  (Import, reorganisation and shutdown never call `SetHead`; recovery itself
     reaches it only through `Reset`.) -/
 theorem sethead_trace_not_ok_witness :
-    firstBad true gen0 0 (writeLog .fixed gen0 0 (siblingReorg ++ [.opened, .setHead 0])) 0 = some 15 ∧
-    recover (applyAll gen0 (((writeLog .fixed gen0 0 (siblingReorg ++ [.opened, .setHead 0])).take 15).map (·.1))) = .panicReset := by
+    firstBad true gen0 0 (writeLog .head gen0 0 (siblingReorg ++ [.opened, .setHead 0])) 0 = some 15 ∧
+    recover (applyAll gen0 (((writeLog .head gen0 0 (siblingReorg ++ [.opened, .setHead 0])).take 15).map (·.1))) = .panicReset := by
   decide
 
 end Aqv.Props.C04
